@@ -29,9 +29,11 @@ CONSTANTS
     MaxRebal,   \* bound on checkpointed rebalances (keeps exact rationals within TLC's 32-bit integers)
     MaxDepth
 
-VARIABLES st, h, track, clk, last, hist, n
-vars == <<st, h, track, clk, last, hist, n>>
-view == <<st, h, track, clk, last, n>>
+\* prep: a rebalancing request that has been built and previewed (Rebalancing.make_trades) but not executed yet
+VARIABLES st, h, track, clk, last, hist, n, prep
+vars == <<st, h, track, clk, last, hist, n, prep>>
+view == <<st, h, track, clk, last, n, prep>>
+NoPrep == [alloc |-> <<>>, measure |-> "none", thr |-> Zero, fractional |-> TRUE]
 
 NoOp == [op |-> "init", c |-> "-", x |-> "-", y |-> "-", out |-> "ok", nlv |-> NaN]
 
@@ -42,6 +44,7 @@ Init == /\ st = InitLedger
         /\ last = NoOp
         /\ hist = <<>>
         /\ n = 0
+        /\ prep = NoPrep
 
 \* every history record also carries the positions and margins after the operation, so that the
 \* harness can compare the account at every step of a replayed history and not only at its end
@@ -110,7 +113,7 @@ Value(raise) ==
     /\ UNCHANGED <<h, track, clk>>
 
 \* the rebalancing path: trades are built by the library from the exchange's current quotes
-DoRebalance(req, dt, tag) ==
+DoRebalance(req, dt, tag, prepared) ==
     \E t \in {clk + dt} : \E r \in {RebalanceF(st, req, t)} :
     LET execp(c) == AcqPrice(st, c, Sign(r.trades[c]))
         done == r.trades # <<>> /\ r.out \in {"ok", "broke"}     \* trades were executed
@@ -124,16 +127,36 @@ DoRebalance(req, dt, tag) ==
                  interest |-> Add(h.interest, r.interest)]
         /\ track' = IF r.out = "ok" THEN track + 1 ELSE track
         /\ Log([op |-> tag, c |-> "-", x |-> req, y |-> t, out |-> r.out, nlv |-> Nlv(r.st),
-                pre |-> r.pre, post |-> r.post, trades |-> r.trades, interest |-> r.interest, edge |-> r.edge])
+                pre |-> r.pre, post |-> r.post, trades |-> r.trades, interest |-> r.interest, edge |-> r.edge,
+                prepared |-> prepared])
 
 Lots(tgt, dt) ==
     /\ "lots" \in Ops
     /\ DoRebalance([alloc |-> [c \in DOMAIN tgt |-> RM(tgt[c])], measure |-> "lots",
-                    thr |-> Zero, fractional |-> TRUE], dt, "rebalance")
+                    thr |-> Zero, fractional |-> TRUE], dt, "rebalance", FALSE)
 
 Rebal(req, dt) ==
     /\ "rebal" \in Ops
-    /\ DoRebalance(req, dt, "rebalance")
+    /\ DoRebalance(req, dt, "rebalance", FALSE)
+
+\* "see what the trades would be": the request object is built and its trades previewed now (which values the account,
+\* hence marks it to market), and executed later - possibly after quotes have moved - as if it were new
+Prepare(req) ==
+    /\ "prepare" \in Ops
+    /\ prep = NoPrep
+    /\ \E v \in {ValueF(st, TRUE)} :
+          \E m \in {IF v.out = "ok" THEN MakeTradesF(v.st, req, v.nlv) ELSE [out |-> v.out, trades |-> <<>>, edge |-> {}]} :
+             /\ st' = v.st
+             /\ prep' = IF m.out = "ok" THEN req ELSE NoPrep
+             /\ Log([op |-> "prepare", c |-> "-", x |-> req, y |-> "-", out |-> m.out, nlv |-> Nlv(v.st),
+                     trades |-> m.trades, edge |-> m.edge])
+    /\ UNCHANGED <<h, track, clk>>
+
+Execute(dt) ==
+    /\ "prepare" \in Ops
+    /\ prep # NoPrep
+    /\ DoRebalance(prep, dt, "rebalance", TRUE)
+    /\ prep' = NoPrep
 
 Accrue(dt, accrue) ==
     /\ (IF accrue THEN "accrue" ELSE "query") \in Ops
@@ -148,16 +171,19 @@ Accrue(dt, accrue) ==
 
 Next ==
     /\ n < MaxDepth
-    /\ \/ \E c \in C, b \in Bids, s \in Spreads : Quote(c, b, s)
-       \/ \E c \in C, b \in Bids, side \in {"bid", "ask", "both"} : Half(c, b, side)
-       \/ \E c \in C : Discontinue(c)
-       \/ \E c \in C, dq \in DQs : Trade(c, dq)
-       \/ \E c \in C : Mark(c)
-       \/ MarkAll
-       \/ \E r \in BOOLEAN : Value(r)
-       \/ \E tgt \in LotTargets, dt \in Steps : Lots(tgt, dt)
-       \/ \E req \in Reqs, dt \in Steps : Rebal(req, dt)
-       \/ \E dt \in Steps \cup {0}, a \in BOOLEAN : Accrue(dt, a)
+    /\ \/ /\ UNCHANGED prep
+          /\ \/ \E c \in C, b \in Bids, s \in Spreads : Quote(c, b, s)
+             \/ \E c \in C, b \in Bids, side \in {"bid", "ask", "both"} : Half(c, b, side)
+             \/ \E c \in C : Discontinue(c)
+             \/ \E c \in C, dq \in DQs : Trade(c, dq)
+             \/ \E c \in C : Mark(c)
+             \/ MarkAll
+             \/ \E r \in BOOLEAN : Value(r)
+             \/ \E tgt \in LotTargets, dt \in Steps : Lots(tgt, dt)
+             \/ \E req \in Reqs, dt \in Steps : Rebal(req, dt)
+             \/ \E dt \in Steps \cup {0}, a \in BOOLEAN : Accrue(dt, a)
+       \/ \E req \in Reqs : Prepare(req)
+       \/ \E dt \in Steps : Execute(dt)
 
 Spec == Init /\ [][Next]_vars
 
